@@ -9,7 +9,7 @@ KNOWN_ID = 'bidi-interior-nsm'
 
 def correspondence(ctx):
     corr = Corr()
-    impl = rle_check(ctx, corr, ['bidi'], ['bidi'])
+    impl = rle_check(ctx, corr, ['bidi', 'hasrtl1', 'dir_1', 'dir_a1'], ['bidi', 'hasrtl1', 'dir_1', 'dir_a1'])
     classes = sorted({v for _, _, v in impl['bidi']})
     corr.count('bidi_classes_in_table', len(classes))
     # several representatives per class, taken from the regenerated table
@@ -64,7 +64,7 @@ def correspondence(ctx):
         if verdict.startswith('VIOLATED-KNOWN') and known(case, impl_, model, verdict) is None:
             corr.spec_violations.append((case, impl_, verdict))
     corr.exhaustive = True
-    corr.rule = (f'bidi_class compared over ALL code points with the model and with the independent UnicodeData parse; directionality_rule on ALL class sequences of length 1..{maxlen} over 12 classes '
+    corr.rule = (f'bidi_class, has_rtl on every one-character label and the directionality rule on every label c and a+c compared over ALL code points with the model and with the independent UnicodeData parse / RFC 5893; directionality_rule on ALL class sequences of length 1..{maxlen} over 12 classes '
                  '(L R AL AN EN ES CS ET ON BN NSM WS), 3 representatives of every one of the 23 classes in 7 placements, has_rtl / satisfy_bidi_rule (hooks) on all sequences <= 3, random longer sequences. '
                  'distinct_nontrivial = distinct (operation, class sequence) among RTL labels of length <= 5')
     return corr
